@@ -126,8 +126,9 @@ func (w *World) StopAll(ctx context.Context) {
 type PipelineWrap struct {
 	w *World
 	*pipeline.Service
-	mu     sync.Mutex
-	writes int
+	mu      sync.Mutex
+	writes  int
+	lastErr string
 }
 
 func (p *PipelineWrap) UpdateStatus(ctx context.Context, id string, st pipeline.Status, errMsg string) error {
@@ -146,6 +147,9 @@ func (p *PipelineWrap) UpdateStatus(ctx context.Context, id string, st pipeline.
 		}
 	}
 	err := p.Service.UpdateStatus(ctx, id, st, errMsg)
+	p.mu.Lock()
+	p.lastErr = errMsg
+	p.mu.Unlock()
 	info := st.String()
 	if err != nil {
 		info += " write-failed: " + err.Error()
@@ -326,7 +330,13 @@ func (w *World) Status() (pipeline.Status, string) {
 	if err != nil {
 		return 0, err.Error()
 	}
-	return p.GetStatus(), p.Error
+	// Instance.Error is written by pipeline.Service.UpdateStatus without a lock: do not read it
+	// from here (the race detector would blame the harness); the error text of the last status
+	// write that went through the lifecycle's PipelineService is kept by the wrapper.
+	w.PipeWrap.mu.Lock()
+	msg := w.PipeWrap.lastErr
+	w.PipeWrap.mu.Unlock()
+	return p.GetStatus(), msg
 }
 
 // StoredPosition decodes the position stored for a source connector in a store snapshot ("" if none).
